@@ -149,6 +149,20 @@ def genbasic_corruptions():
     return out
 
 
+def gendisk_corruptions():
+    dr = record.canonical(mkcfg("DiskRevolve", max_n=9, ram=1))
+    out = [("valid DiskRevolve trace is a behaviour of GenDiskCore", dr, None)]
+    t = copy.deepcopy(dr)
+    i = first(t, lambda e: is_act(0)(e) and e[7] == 1)          # first disk write: one step shorter, the next one longer
+    t["ev"][i][4] -= 1
+    t["ev"][i + 1][3] -= 1
+    out.append(("gendisk: a suboptimal disk split", t, "GEN.drift"))
+    t = copy.deepcopy(dr)
+    t["ev"][first(t, lambda e: is_act(3)(e) and e[7] == 1)][2] = 2
+    out.append(("gendisk: disk checkpoint copied instead of moved", t, "GEN.drift"))
+    return out
+
+
 def main():
     ctx = fw.Ctx("SELFTEST", "quick", 0)
     cases = corruptions()
@@ -161,9 +175,11 @@ def main():
         verdicts += fw.validate(ctx, [t for _, t, _ in gcases], module="TraceGenTwoLevel", tag="gtl")
         bcases = genbasic_corruptions()
         verdicts += fw.validate(ctx, [t for _, t, _ in bcases], module="TraceGenBasic", tag="gb")
+        dcases = gendisk_corruptions()
+        verdicts += fw.validate(ctx, [t for _, t, _ in dcases], module="TraceGenDisk", tag="gdk")
     finally:
         ctx.cleanup()
-    cases = cases + ocases + gcases + bcases
+    cases = cases + ocases + gcases + bcases + dcases
     bad = 0
     for (name, t, expect), v in zip(cases, verdicts):
         got = sorted({c for c, _, _ in v["viol"]})
